@@ -49,10 +49,36 @@ def seeds():
     return '\n'.join(out)
 
 
+def fixes():
+    kf = json.load(open(os.path.join(VERIF, 'known_findings.json')))['findings']
+    rv = {r['commit']: r for r in json.load(open(os.path.join(VERIF, 'seeded', 'reverted_fixes.json')))}
+    out = ['| id | commit | property | defect | rules that fire when the fix is reverted (in memory) |', '|---|---|---|---|---|']
+    for e in kf:
+        if e.get('status') != 'fixed':
+            continue
+        r = rv.get(e['commit'], {})
+        fired = ', '.join(r.get('rules_firing_when_reverted', [])) or 'NOT REPORTED'
+        if r.get('note'):
+            fired += f" ({r['note'][:60]})"
+        out.append(f"| {e['id']} | {e['commit']} | {e['property']} | {e['what'][:200].replace('|', '/')} | {fired} |")
+    return '\n'.join(out)
+
+
+def benign():
+    out = ['| id | kind (author\'s summary) |', '|---|---|']
+    for d in sorted(glob.glob(os.path.join(VERIF, 'benign', 'C*-*'))):
+        try:
+            m = json.load(open(os.path.join(d, 'meta.json')))
+        except Exception:
+            m = {}
+        out.append(f"| {os.path.basename(d)} | {str(m.get('kind', ''))[:60].replace('|', '/')}: {str(m.get('summary', ''))[:200].replace('|', '/').replace(chr(10), ' ')} |")
+    return '\n'.join(out)
+
+
 def main():
     p = os.path.join(VERIF, 'DESIGN.md')
     s = open(p, encoding='utf-8').read()
-    for name, fn in (('rules', rules), ('mutation', mutation), ('seeds', seeds)):
+    for name, fn in (('rules', rules), ('mutation', mutation), ('seeds', seeds), ('fixes', fixes), ('benign', benign)):
         pat = re.compile(r'(<!-- BEGIN:%s -->).*?(<!-- END:%s -->)' % (name, name), re.S)
         if pat.search(s):
             s = pat.sub(lambda m: m.group(1) + '\n' + fn() + '\n' + m.group(2), s)
